@@ -19,6 +19,16 @@ POSITIONS = {
 }
 
 
+RT_POSITIONS = [
+    lambda lit: "select a from t where b in (%s, 'z')" % lit,
+    lambda lit: "select a from t where b in (%s)" % lit,
+    lambda lit: "select * from (values (1, %s), (2, 'z')) as v" % lit,
+    lambda lit: "insert into t (a, b) values (%s, 'z'), ('q', %s)" % (lit, lit),
+    lambda lit: "select f(%s, 1) as x from t where b = %s and c like %s" % (lit, lit, lit),
+    lambda lit: "select case when a = %s then %s else 'z' end from t" % (lit, lit),
+]
+
+
 def klass(s):
     """lexical class of a string that the pinned tree is known to mishandle (each a listed finding), or None"""
     if "\\" in s:
@@ -122,6 +132,22 @@ def run(ctx):
                         continue
                     ctx.violation("input", dict(entry=ename, sql=mk(lit), literal=s, form=form, position=pn, returned=short(t, 500) if st == "ok" else [st, str(t)],
                                                 requires="{'literal': %r} at the literal's position" % s))
+        # parse -> format -> parse in the positions where the formatter prints literals as members of a list (IN lists, VALUES rows) or as operands
+        q1 = "'" + s.replace("'", "''") + "'"
+        for mk in RT_POSITIONS:
+            sql = mk(q1)
+            st0, t0 = impl.outcome(impl.M.parse, sql)
+            nsys += 1
+            if st0 != "ok":
+                continue
+            stf, txt = impl.outcome(impl.M.format, t0)
+            stb, back = impl.outcome(impl.M.parse, txt) if stf == "ok" else ("fmt", txt)
+            if not (stf == "ok" and stb == "ok" and back == t0):
+                if kl and kl in known:
+                    ctx.known(kl, "%s e.g. %s" % (known[kl]["what"], known[kl]["witness"]))
+                else:
+                    ctx.violation("input", dict(sql=sql, literal=s, tree=short(t0, 400), formatted=txt if stf == "ok" else [stf, str(txt)], reparsed=short(back, 400),
+                                                requires="format then parse returns the same tree (the literal survives)"))
         # format -> parse
         st, txt = impl.outcome(impl.M.format, {"select": {"value": {"literal": s}}})
         st2, back = impl.outcome(impl.M.parse, txt) if st == "ok" else ("fmt", txt)
